@@ -1,0 +1,103 @@
+//go:build verif
+
+package commonmark
+
+// Contracts for the delimiter-stack algorithm of processEmphasis (C11, C13, C04).
+// Comments only; conventions as in contracts_verif.go.
+
+// ---------------------------------------------------------------------------
+// deleteDelimiterStack removes stack[i:j]: the elements below i stay, the
+// elements from j on move down by j-i, in the same backing array.
+// ---------------------------------------------------------------------------
+
+//@ func deleteDelimiterStack
+//@   requires[range] 0 <= i && i <= j && j <= len(stack)
+//@   modifies stack[0:len(stack)]
+//@   ensures[len] len(result) == len(stack) - (j - i) && sameArray(result, stack) && offsetOf(result) == offsetOf(stack) && cap(result) == cap(stack)
+//@   ensures[prefix] forall k in [0, i): result[k].typ == old(stack[k].typ) && result[k].flags == old(stack[k].flags) && result[k].n == old(stack[k].n) && result[k].node == old(stack[k].node)
+//@   ensures[shift] forall k in [i, len(result)): result[k].typ == old(stack[k + (j - i)].typ) && result[k].flags == old(stack[k + (j - i)].flags) && result[k].n == old(stack[k + (j - i)].n) && result[k].node == old(stack[k + (j - i)].node)
+//@   loop 0: invariant[keep] len(clear) == j - i && sameArray(clear, stack) && offsetOf(clear) == offsetOf(stack) + newEnd && newEnd == len(stack) - (j - i)
+//@   loop 0: invariant[low] forall k in [0, i): stack[k].typ == old(stack[k].typ) && stack[k].flags == old(stack[k].flags) && stack[k].n == old(stack[k].n) && stack[k].node == old(stack[k].node)
+//@   loop 0: invariant[moved] forall k in [i, newEnd): stack[k].typ == old(stack[k + (j - i)].typ) && stack[k].flags == old(stack[k + (j - i)].flags) && stack[k].n == old(stack[k + (j - i)].n) && stack[k].node == old(stack[k + (j - i)].node)
+//@   loop 0: invariant[args] 0 <= i && i <= j && j <= len(stack)
+//@   loop 0: invariant[frame] framed()
+//@   serves C11, C04
+
+// ---------------------------------------------------------------------------
+// processEmphasis (CommonMark 0.30, "process emphasis").  The procedure of the
+// specification searches, for each potential closer, back to stack_bottom for
+// the nearest matching opener; the code stops each search at a cached lower
+// bound openersBottom[bucket(closer)].  The cache is sound exactly when no
+// element below a bucket's bound can match any closer of that bucket:
+//
+//   INV:  forall k, forall j in [stackBottom, openersBottom[k]):  !MatchB(stack[j], k)
+//
+// where MatchB(o, k) is rules 9/10 and "same delimiter, opener can open" for an
+// opener o against the closers of bucket k (the bucket fixes the closer's
+// delimiter, whether it can also open, and its length mod 3; lemma
+// BucketMatch).  With INV, a search that gives up at the bound has the result of
+// the unbounded search the specification prescribes, and a search that finds an
+// opener finds the nearest one (site obligation at wrap).  INV has to survive
+// the deletions from the stack, which shift the elements above the opener.
+// The tree surgery (wrap, remove) is abstracted; it cannot touch the delimiter
+// stack (structural check "keeps").
+// ---------------------------------------------------------------------------
+
+//@ spec IsCloserEl(t int, f int) bool = (t == 1 || t == 2) && HasBit(f, 4)
+//@ spec Bucket(t int, f int, n int) int = t == 1 ? (HasBit(f, 2) ? 3 + n % 3 : n % 3) : (t == 2 ? (HasBit(f, 2) ? 9 + n % 3 : 6 + n % 3) : (t == 3 ? 12 : 13))
+//@ -- an opener (ot, of, on) against the closers of bucket k
+//@ spec opaque MatchB(ot int, of int, on int, k int) bool = (ot == 1 || ot == 2) && 0 <= k && k < 12 && ot == (k < 6 ? 1 : 2) && HasBit(of, 2)
+//@     && !((HasBit(of, 4) || k % 6 >= 3) && (on + k) % 3 == 0 && !(on % 3 == 0 && k % 3 == 0))
+
+//@ lemma BucketMatch(ot int, of int, on int, ct int, cf int, cn int)
+//@   requires 0 <= on && 0 <= cn && IsCloserEl(ct, cf) && 0 <= of && of < 8 && 0 <= cf && cf < 8
+//@   ensures DelimMatch(ot, of, on, ct, cf, cn) <==> MatchB(ot, of, on, Bucket(ct, cf, cn))
+//@   serves C11
+
+//@ fieldrange commonmark.delimiterStackElement.n 0 281474976710656 the recorded length of a delimiter run is the length of a span of the source (lengths below 2^48)
+//@ fieldrange commonmark.delimiterStackElement.node 1 1152921504606846976 the node of a delimiter-stack element is never nil (assumption A-NODEINV; references are positive integers in the memory model)
+//@ fieldrange commonmark.delimiterStackElement.flags 0 7 the flags of a stack element are built from the three bits activeFlag, openerFlag, closerFlag
+
+//@ func delimiterStackElement.openersBottomIndex
+//@   requires 1 <= elem.typ && elem.typ <= 4 && elem.n >= 0
+//@   ensures[range] 0 <= result && result < openersBottomCount
+//@   ensures[def] result == Bucket(elem.typ, elem.flags, elem.n)
+//@   serves C11, C04
+
+//@ func (*InlineParser).processEmphasis
+//@   requires[state] !isnil(state) && 0 <= stackBottom && stackBottom <= len(state.stack)
+//@   modifies everything
+//@   havoccall (*inlineState).wrap, (*inlineState).remove keeps inlineState.stack, elems:delimiterStackElement, elems:int
+//@   -- the opener wrapped with a closer is the nearest element below it that matches it (rules 9 and 10 included)
+//@   callsite (*inlineState).wrap: requires[nearest] 0 <= openerIndex && openerIndex < currentPosition && currentPosition < len(state.stack)
+//@       && $2 == state.stack[openerIndex].node && $3 == state.stack[currentPosition].node
+//@       && IsCloserEl(state.stack[currentPosition].typ, state.stack[currentPosition].flags)
+//@       && DelimMatch(state.stack[openerIndex].typ, state.stack[openerIndex].flags, state.stack[openerIndex].n, state.stack[currentPosition].typ, state.stack[currentPosition].flags, state.stack[currentPosition].n)
+//@       && (forall j in [openerIndex + 1, currentPosition): !MatchB(state.stack[j].typ, state.stack[j].flags, state.stack[j].n, Bucket(state.stack[currentPosition].typ, state.stack[currentPosition].flags, state.stack[currentPosition].n)))
+//@   -- strong emphasis exactly when both delimiter runs still have two characters (the spans have already been shortened)
+//@   callsite (*inlineState).wrap: requires[strong] $2 == $3
+//@       || ($1 == StrongKind && $2.span.End - $2.span.Start >= 0 && $3.span.End - $3.span.Start >= 0)
+//@       || ($1 == EmphasisKind && (!($2.span.End + 1 - $2.span.Start >= 2 && $3.span.End - ($3.span.Start - 1) >= 2)
+//@             || !(0 <= $2.span.Start && $2.span.Start <= $2.span.End + 1 && 0 <= $3.span.Start - 1 && $3.span.Start - 1 <= $3.span.End)))
+//@   loop 0: invariant[init] forall k in [0, _i): openersBottom[k] == stackBottom
+//@   loop 1: invariant[pos] !isnil(state) && 0 <= stackBottom && stackBottom <= currentPosition && currentPosition <= len(state.stack)
+//@   loop 1: invariant[bounds] forall k in [0, 14): stackBottom <= openersBottom[k] && openersBottom[k] <= currentPosition
+//@   loop 1: invariant[sound] forall k in [0, 14): forall j in [stackBottom, openersBottom[k]): !MatchB(state.stack[j].typ, state.stack[j].flags, state.stack[j].n, k)
+//@   loop 2: invariant[pos] !isnil(state) && 0 <= stackBottom && stackBottom <= currentPosition && currentPosition < len(state.stack) && openersBottomIndex == Bucket(state.stack[currentPosition].typ, state.stack[currentPosition].flags, state.stack[currentPosition].n)
+//@       && 0 <= openersBottomIndex && openersBottomIndex < 14 && IsCloserEl(state.stack[currentPosition].typ, state.stack[currentPosition].flags)
+//@   loop 2: invariant[idx] openersBottom[openersBottomIndex] - 1 <= openerIndex && openerIndex < currentPosition
+//@   loop 2: invariant[bounds] forall k in [0, 14): stackBottom <= openersBottom[k] && openersBottom[k] <= currentPosition
+//@   loop 2: invariant[sound] forall k in [0, 14): forall j in [stackBottom, openersBottom[k]): !MatchB(state.stack[j].typ, state.stack[j].flags, state.stack[j].n, k)
+//@   loop 2: invariant[none] forall j in [openerIndex + 1, currentPosition): !MatchB(state.stack[j].typ, state.stack[j].flags, state.stack[j].n, openersBottomIndex)
+//@   loop 2: use BucketMatch(state.stack[openerIndex].typ, state.stack[openerIndex].flags, state.stack[openerIndex].n, state.stack[currentPosition].typ, state.stack[currentPosition].flags, state.stack[currentPosition].n)
+//@   loop 2: decreases openerIndex + 1
+//@   loop 3: invariant[pos] !isnil(state) && 0 <= stackBottom && stackBottom <= currentPosition && currentPosition <= len(state.stack) && 0 <= openerIndex && openerIndex + 1 == currentPosition && stackBottom <= openerIndex
+//@   loop 3: invariant[clamped] forall k in [0, _i): stackBottom <= openersBottom[k] && openersBottom[k] <= openerIndex
+//@   loop 3: invariant[rest] forall k in [_i, 14): stackBottom <= openersBottom[k] && openersBottom[k] <= len(state.stack) + 1152921504606846976
+//@   loop 3: invariant[sound] forall k in [0, _i): forall j in [stackBottom, openersBottom[k]): !MatchB(state.stack[j].typ, state.stack[j].flags, state.stack[j].n, k)
+//@   contractcall (*Inline).Span, Span.Len
+//@   loop 3: invariant[sound-rest] forall k in [_i, 14): forall j in [stackBottom, openersBottom[k]): j <= openerIndex ==> !MatchB(state.stack[j].typ, state.stack[j].flags, state.stack[j].n, k)
+//@   unclaimed dec:1 termination of the closer loop depends on the lengths of the delimiter nodes' spans (tree state, abstracted)
+//@   nosafety range the spans of delimiter nodes are positions in Source (assumption A-C02-1)
+//@   nosafety nil the nodes of delimiter-stack elements are never nil (assumption A-NODEINV)
+//@   serves C11, C13, C04
